@@ -56,6 +56,28 @@ def blocking_lock_escape(ctx, rep, rule):
     return found
 
 
+def condition_released(ctx, rep, rule):
+    """the waiters' condition is never left held when serve() ends - by return or by exception - whichever way it is taken
+    (`with`, or acquire()/release()): a thread that returns still owning the condition's lock keeps every later waiter from
+    re-acquiring it after being notified"""
+    from . import hygiene as H_
+    f = ctx.func(K.CONN + ".serve")
+    for cf_ in K.fields_constructed_with(ctx, K.CONN, {"Condition"}):
+        g_, must_, may_, eff_ = H_.lock_state(ctx, f, cf_)
+        leaks = [x for x in (g_.exit, g_.excexit) if may_.get(x.id)]
+        wit = None
+        if leaks:
+            acq = [n for n in g_.live if eff_(n) is True]
+            rel = [n for n in g_.live if eff_(n) is False]
+            for a_ in acq:
+                wit = wit or Q.find_path(a_, leaks, avoid=rel, skip_first=True)
+        rep.ob(rule, "Connection.serve: the waiters' condition self.%s is released on every exit" % cf_, not leaks,
+               "not held at the normal nor at the exceptional exit" if not leaks else
+               "serve() can return while still holding self.%s: the thread keeps the condition's lock, a waiter that is notified "
+               "later can never re-acquire it and sleeps through its reply" % cf_, f.loc,
+               witness=ctx.path(wit) if wit else None, kind="site")
+
+
 def serve_slots(ctx):
     """(func, cfg, lock field, condition field, acquire edges, fail edges, release nodes, held region)"""
     f = ctx.func(K.CONN + ".serve")
@@ -99,6 +121,7 @@ def run(ctx, rep):
                "the documented caveat of serve_threaded (nested sync requests) is out of scope")
 
     K.connection_state(ctx, rep, "R13.9", ["_recvlock", "_recv_event", "_request_callbacks", "_seqcounter"])
+    condition_released(ctx, rep, "R13.4")
     f, g, lock, cond, acq, acq_nodes, acq_edges, fail_edges, rel_nodes, held = serve_slots(ctx)
     rep.analysed(f, g)
     rep.floor("R13.1", "release sites of the receive lock in serve()", len(rel_nodes), 1)
